@@ -946,6 +946,11 @@ def check_c08(prog, rep, tier, cfg):
     import lexer_rules as _lx
     _lx.blank_definition(prog, rep, "C08.g")
     _lx.blank_scanner_stops_only_at_non_blank(prog, rep, "C08.g")
+    # C08.h — only what lies between `pasfmt off` and the `on` that ends it escapes the whitespace rules: one step of the toggle scan
+    # marks an On comment iff a region was open (shared with C07.f)
+    import text as _text
+    from engine import AliasReport as _AR
+    _text.check_c07(prog, _AR(rep, [("C07.f", r"^toggle:transition-table|^toggle:anchor|^anchor:FormattingToggler", "C08.h")]), tier, cfg)
     # ---------------------------------------------------------------- C08.a emission order and counter<->string pairing
     R = "C08.a"
     cl = prog.body(RCL)
